@@ -40,10 +40,8 @@ Definition binop_okb (c : case) : bool :=
 Definition len0 (c : case) : N := match c_vals c with x :: _ => xlen x | [] => 0 end.
 Definition len1 (c : case) : N := match c_vals c with _ :: y :: _ => xlen y | _ => 0 end.
 
-(* decimal formatting divides by ten in the vector's own type: the subject needs at least one
-   storage word (Bvf<I,0> cannot hold the constant 10) and a length obeying A1 *)
-Definition disp_okb (c : case) : bool :=
-  (len0 c <? A1) && match c_vals c with XF _ v :: _ => 0 <? lenw (wd v) | _ => true end.
+(* decimal formatting divides by ten in the vector's own type; the length obeys A1 *)
+Definition disp_okb (c : case) : bool := len0 c <? A1.
 
 Definition args_okb (c : case) : bool :=
   match c_op c with
